@@ -112,6 +112,6 @@ def run(chk, tier, jobs, deadline):
                            "non-default tcp.* values in the creation map; the options are compared on the descriptor the last "
                            "connect() to the connected address was issued on")
     msgfamily.run_configs(chk, "h_eff", configs(tier), PREFIXES, jobs,
-                          deadline or (420 if tier == "quick" else 2700),
+                          deadline or (420 if tier == "quick" else 1500),
                           counter_names={1: "set_operations_applied", 2: "in_force_comparisons", 3: "static_cells"})
     run_dns_part(chk, tier, jobs)
